@@ -184,7 +184,7 @@ def pMeta : P Metadata
   | "meta" :: ws => do
     let (ns, ws) ← pStr 'x' ws
     let (metric, ws) ← pStr 'x' ws
-    let (kind, ws) ← pInt ws
+    let (kind, ws) ← pNat ws
     let (tagKey, ws) ← pStr 'x' ws
     let (pre, ws) ← pStr 'x' ws
     let (limit, ws) ← pInt ws
